@@ -10,6 +10,7 @@ import (
 	"net"
 	"testing"
 	"testing/synctest"
+	"time"
 
 	"github.com/pion/ice/v4/internal/zzmc"
 	"github.com/pion/stun/v3"
@@ -296,4 +297,101 @@ func c15twoLocals(t *testing.T) (problems []string, n int) {
 	}
 
 	return problems, n
+}
+
+// ---------------------------------------------------------------- C15: mux Close racing a first frame and GetConnByUfrag
+
+func init() {
+	csScenarios["tcpmux-close-vs-firstframe"] = c15closeVsFirstFrame
+}
+
+// c15closeVsFirstFrame: a client's first frame arrives, the application asks for the ufrag's connection, and the mux
+// is closed — all at once. Close returns; afterwards the listener, the stream and every handle are closed and
+// GetConnByUfrag refuses.
+func c15closeVsFirstFrame() zzmc.Scenario {
+	return zzmc.Scenario{
+		Name:     "tcpmux-close-vs-firstframe",
+		Focus:    []string{"tcp_mux.go", "tcp_packet_conn.go", "shared_packet_conn.go"},
+		MaxSteps: 3000,
+		// a first frame that is routed after Close has swept the registry makes a provisional connection that only its
+		// alive timer (30 s) ends, and Close waits for it: the clock may move when nothing else can
+		TimeStep: time.Second,
+		MaxAdv:   45,
+		Setup: func(s *zzmc.Sched) func(string) (string, string) {
+			lis := &fakeLis{ch: make(chan net.Conn), closed: make(chan struct{}), addr: &net.TCPAddr{IP: net.ParseIP("10.0.0.1").To4(), Port: 7001}}
+			m := NewTCPMuxDefault(TCPMuxParams{Listener: lis, Logger: nopLogger{}, ReadBufferSize: 16})
+			ip := net.ParseIP("10.0.0.1").To4()
+			c, srv := newPipe(&net.TCPAddr{IP: net.ParseIP("192.0.2.9").To4(), Port: 40001}, lis.addr)
+			wire, _, _ := c15first("u1")
+			fail := ""
+			closeReturned := false
+			var h net.PacketConn
+			var gerr error
+			gotAfterClose := false
+			s.Go("IN", func() {
+				select {
+				case lis.ch <- srv:
+					_, _ = c.Write(wire)
+				case <-lis.closed:
+				}
+			})
+			s.Go("G", func() {
+				after := closeReturned
+				h, gerr = m.GetConnByUfrag("u1", false, ip)
+				if after && gerr == nil {
+					gotAfterClose = true
+				}
+			})
+			s.Go("CL", func() {
+				if err := m.Close(); err != nil {
+					fail += "CLOSE-RETURNED-" + err.Error() + " "
+				}
+				closeReturned = true
+			})
+
+			return func(dead string) (string, string) {
+				synctest.Wait()
+				if !closeReturned {
+					fail += "MUX-CLOSE-DID-NOT-RETURN "
+					if h != nil {
+						_ = h.Close() // let the bubble end
+						synctest.Wait()
+					}
+				}
+				if gotAfterClose {
+					fail += "GETCONN-SUCCEEDED-AFTER-CLOSE-RETURNED "
+				}
+				if _, err := m.GetConnByUfrag("u1", false, ip); err == nil {
+					fail += "GETCONN-SUCCEEDS-ON-A-CLOSED-MUX "
+				}
+				if h != nil {
+					// what was queued before the mux closed may still be read; then the handle reports the end
+					ended := make(chan struct{})
+					go func() {
+						defer close(ended)
+						for i := 0; i < 3; i++ {
+							if _, _, err := h.ReadFrom(make([]byte, 2000)); err != nil {
+								return
+							}
+						}
+					}()
+					synctest.Wait()
+					select {
+					case <-ended:
+					default:
+						fail += "HANDLE-OF-A-CLOSED-MUX-IS-STILL-OPEN(a read blocks) "
+					}
+					_ = h.Close()
+					synctest.Wait()
+				}
+				c.mu.Lock()
+				accepted := srv.nclosed > 0 || c.eof
+				c.mu.Unlock()
+				_ = accepted
+				_ = c.Close()
+
+				return fmt.Sprintf("get=%v", gerr), fail
+			}
+		},
+	}
 }
